@@ -356,13 +356,20 @@ def run_config(acc, c, tmpdir, live=False):
         if served and not live and c["platform"] == "ledger" and \
                 zlib.crc32(key.encode()) % 2 == 0:
             unsafe_after_reconnection(acc, c, s, dev, bad, v1)
+        elif served and not live and c["platform"] == "sgx" and c["mode"] == "boot" and \
+                zlib.crc32(key.encode()) % 2 == 0:
+            # (the same on SGX, for the unsafe devices that platform can present; the link
+            # failure comes in the shapes the dongle layer classifies)
+            s.bus.tcp_faults_as_hid = True
+            acc.count("reconnections_to_an_unsafe_device_on_sgx")
+            unsafe_after_reconnection(acc, c, s, dev, bad, v1, sgx=True)
         if len(acc.samples) < 3 and (served or n_unlock):
             acc.sample({"config": c, "served": served, "unlock_commands": n_unlock,
                         "outcome": repr(exc) if exc else "initialize_device returned",
                         "apdu_cmds": [("%02x" % e["apdu"][1]) for e in apdus if e["apdu"]]})
 
 
-def unsafe_after_reconnection(acc, c, s, dev, bad, v1=False):
+def unsafe_after_reconnection(acc, c, s, dev, bad, v1=False, sgx=False):
     """the manager is serving; the link fails; the device that is there afterwards is one
     the bring-up would never accept (unsupported signer, not onboarded, locked with no
     retries left), and the first repair attempt is cut short by a time-out or an error
@@ -381,6 +388,8 @@ def unsafe_after_reconnection(acc, c, s, dev, bad, v1=False):
                       "locked-no-retries", "locked-unsupported-ui", "locked-unsupported-ui",
                       "locked-wrong-echo", "locked-signer-does-not-come-up",
                       "locked-signer-does-not-come-up"])
+    if sgx:
+        how = rng.choice(["signer-version", "not-onboarded", "locked-no-retries"])
     if how == "signer-version":
         dev.cfg["signer_version"] = rng.choice([(5, 5, 0), (6, 0, 0), (4, 4, 1), (5, 4, 2)])
     elif how == "not-onboarded":
